@@ -2,7 +2,7 @@
 // scalars and records operands and results as nested arrays (ndjson, one record per call).
 // It contains no expected values: spec/LinAlgJudge.tla (TLC) is the judge.
 //
-//   c14_linalg record OUT seed tier(quick|thorough) part(pairs|matrices|vectors|all)
+//   c14_linalg record OUT seed tier(quick|thorough) part(pairs|matrices|vectors|extension|all)
 //
 // Inputs: all pairs of 2x2 matrices over {-1,0,1,2}; random 3x3 / 4x4 / rectangular matrices and
 // vectors / dims of dimension 1-4 with entries in [-9,9] (smaller where products of products are
@@ -62,6 +62,19 @@
 #include <fcppt/math/vector/to_dim.hpp>
 #include <fcppt/math/vector/to_signed.hpp>
 #include <fcppt/math/vector/to_unsigned.hpp>
+#include <fcppt/math/interval_distance.hpp>
+#include <fcppt/math/dim/is_quadratic.hpp>
+#include <fcppt/math/dim/to_signed.hpp>
+#include <fcppt/math/dim/to_unsigned.hpp>
+#include <fcppt/math/matrix/infinity_norm.hpp>
+#include <fcppt/math/sphere/comparison.hpp>
+#include <fcppt/math/sphere/object.hpp>
+#include <fcppt/math/vector/ceil_div_signed.hpp>
+#include <fcppt/math/vector/mod.hpp>
+#include <fcppt/math/vector/unit.hpp>
+#include <fcppt/optional/object.hpp>
+#include <fcppt/tuple/make.hpp>
+#include <fcppt/tuple/object.hpp>
 
 #include <cstring>
 #include <string>
@@ -660,7 +673,7 @@ void sign_casts(ivec const &v)
   for (auto &x : w) x = x < 0 ? -x : x;
   auto const a(mk_vec<N>(w, 0));
   std::string const aj = vals_vec(w, 0, N);
-  Rec r("structure_cast");
+  Rec r("sign_cast");
   r.ks("k", "vector").ks("to", "unsigned->signed").k("a", aj).begin();
   auto const u(fm::vector::to_unsigned(a));
   auto const res(fm::vector::to_signed(u));
@@ -1133,13 +1146,338 @@ void part_vectors(vj::Rng &rng, bool const thorough)
   }
 }
 
+// ---------------------------------------------------------------- extension round
+template <typename V>
+std::string optvj(fcppt::optional::object<V> const &o)
+{
+  return o.has_value() ? "[" + vj_(o.get_unsafe()) + "]" : std::string("[]");
+}
+
+template <sz N>
+void ext_vector_cases(ivec const &v, int const k)
+{
+  // a = v[0..N), b = v[N..2N) (b contains zeros now and then), views as before
+  auto const a(mk_vec<N>(v, 0));
+  auto const b(mk_vec<N>(v, N));
+  auto m(mk_mat<2, N>(v, 0));
+  auto const &cm(m);
+  auto const va(m.get_unsafe(0));
+  auto const vb(cm.get_unsafe(1));
+  auto const da(mk_dim<N>(v, 0));
+  auto const db(mk_dim<N>(v, N));
+  std::string const aj = vals_vec(v, 0, N), bj = vals_vec(v, N, N);
+  {
+    Rec r("div");
+    r.ks("k", "vector").ks("st", "static,static").k("a", aj).k("b", bj).begin();
+    auto const res(a / b);
+    r.k("r", optvj(res)).end();
+  }
+  {
+    Rec r("div");
+    r.ks("k", "vector").ks("st", "view,constview").k("a", aj).k("b", bj).begin();
+    auto const res(va / vb);
+    r.k("r", optvj(res)).end();
+  }
+  {
+    Rec r("div");
+    r.ks("k", "vector,dim").ks("st", "static,static").k("a", aj).k("b", bj).begin();
+    auto const res(a / db);
+    r.k("r", optvj(res)).end();
+  }
+  {
+    Rec r("div");
+    r.ks("k", "dim").ks("st", "static,static").k("a", aj).k("b", bj).begin();
+    auto const res(da / db);
+    r.k("r", optvj(res)).end();
+  }
+  {
+    Rec r("div_scalar");
+    r.ks("k", "vector").ks("st", "view").k("a", aj).ki("k", k).begin();
+    auto const res(va / k);
+    r.k("r", optvj(res)).end();
+  }
+  {
+    Rec r("div_scalar");
+    r.ks("k", "dim").ks("st", "static").k("a", aj).ki("k", k).begin();
+    auto const res(da / k);
+    r.k("r", optvj(res)).end();
+  }
+  {
+    // fcppt::math::mod exists for unsigned (and floating point) types only: |components| as unsigned
+    std::vector<unsigned> w;
+    for (int x : v) w.push_back(static_cast<unsigned>(x < 0 ? -x : x));
+    unsigned const uk = static_cast<unsigned>(k < 0 ? -k : k);
+    auto const ua([&w]<std::size_t... Is>(std::index_sequence<Is...>) {
+      return fm::vector::static_<unsigned, N>{w[Is]...};
+    }(std::make_index_sequence<N>{}));
+    auto const ub([&w]<std::size_t... Is>(std::index_sequence<Is...>) {
+      return fm::vector::static_<unsigned, N>{w[N + Is]...};
+    }(std::make_index_sequence<N>{}));
+    std::string const uaj = vj_(ua), ubj = vj_(ub);
+    {
+      Rec r("mod");
+      r.ks("k", "vector").ks("st", "static,static").k("a", uaj).k("b", ubj).begin();
+      auto const res(fm::vector::mod(ua, ub));
+      r.k("r", optvj(res)).end();
+    }
+    {
+      Rec r("mod_scalar");
+      r.ks("k", "vector").ks("st", "static").k("a", uaj).ki("k", uk).begin();
+      auto const res(fm::vector::mod(ua, uk));
+      r.k("r", optvj(res)).end();
+    }
+    {
+      Rec r("div");
+      r.ks("k", "vector").ks("st", "unsigned").k("a", uaj).k("b", ubj).begin();
+      auto const res(ua / ub);
+      r.k("r", optvj(res)).end();
+    }
+  }
+  {
+    Rec r("ceil_div_signed");
+    r.ks("k", "vector").ks("st", "static").k("a", aj).ki("k", k).begin();
+    auto const res(fm::vector::ceil_div_signed(a, k));
+    r.k("r", optvj(res)).end();
+  }
+  {
+    Rec r("ceil_div_signed");
+    r.ks("k", "vector").ks("st", "view").k("a", aj).ki("k", k).begin();
+    auto const res(fm::vector::ceil_div_signed(va, k));
+    r.k("r", optvj(res)).end();
+  }
+  {
+    Rec r("is_quadratic");
+    r.ks("k", "dim").k("a", aj).begin();
+    bool const res = fm::dim::is_quadratic(da);
+    r.kb("r", res).end();
+  }
+  if constexpr (N >= 2)
+  {
+    Rec r("narrow_cast");
+    r.ks("k", "dim").ks("st", "static").k("a", aj).ki("n", N - 1).begin();
+    auto const res(fm::dim::narrow_cast<fm::dim::static_<int, N - 1>>(da));
+    r.k("r", vj_(res)).end();
+  }
+  {
+    // unsigned -> signed and back on non-negative components, vectors and dims
+    ivec w(v);
+    for (auto &x : w) x = x < 0 ? -x : x;
+    auto const na(mk_vec<N>(w, 0));
+    auto const nd(mk_dim<N>(w, 0));
+    std::string const nj = vals_vec(w, 0, N);
+    {
+      Rec r("sign_cast");
+      r.ks("k", "vector").ks("to", "to_unsigned").k("a", nj).begin();
+      auto const res(fm::vector::to_unsigned(na));
+      r.k("r", vj_(res)).end();
+    }
+    {
+      auto const u(fm::vector::to_unsigned(na));
+      Rec r("sign_cast");
+      r.ks("k", "vector").ks("to", "to_signed").k("a", nj).begin();
+      auto const res(fm::vector::to_signed(u));
+      r.k("r", vj_(res)).end();
+    }
+    {
+      Rec r("sign_cast");
+      r.ks("k", "dim").ks("to", "to_unsigned").k("a", nj).begin();
+      auto const res(fm::dim::to_unsigned(nd));
+      r.k("r", vj_(res)).end();
+    }
+    {
+      auto const u(fm::dim::to_unsigned(nd));
+      Rec r("sign_cast");
+      r.ks("k", "dim").ks("to", "to_signed").k("a", nj).begin();
+      auto const res(fm::dim::to_signed(u));
+      r.k("r", vj_(res)).end();
+    }
+  }
+  // assignment between storage types, rows written through views
+  {
+    fm::vector::static_<int, N> x(b);
+    Rec r("assign");
+    r.ks("k", "vector").ks("st", "static=view").k("a", bj).k("b", aj).begin();
+    x = va;
+    r.k("r", vj_(x)).end();
+  }
+  {
+    auto m2(mk_mat<2, N>(v, 0));
+    auto row1(m2.get_unsafe(1));
+    Rec r("row_assign");
+    r.ks("st", "view=static").k("a", vals_mat(v, 0, 2, N)).ki("i", 1).k("v", aj).begin();
+    row1 = a;
+    r.k("r", mj_(m2)).end();
+  }
+  {
+    auto m2(mk_mat<2, N>(v, 0));
+    auto const &cm2(m2);
+    auto row0(m2.get_unsafe(0));
+    Rec r("row_copy");
+    r.ks("st", "view=constview(same matrix)").k("a", vals_mat(v, 0, 2, N)).ki("i", 0).ki("j", 1).begin();
+    row0 = cm2.get_unsafe(1);
+    r.k("r", mj_(m2)).end();
+  }
+  for (char const *op : {"+=", "-=", "*="})
+    for (unsigned i = 0; i < 2; ++i)
+      for (unsigned j = 0; j < 2; ++j)
+      {
+        auto m2(mk_mat<2, N>(v, 0));
+        auto const &cm2(m2);
+        auto lhs(m2.get_unsafe(i));
+        Rec r("row_op");
+        r.ks("st", i == j ? "view,constview(same row)" : "view,constview(same matrix)").k("a", vals_mat(v, 0, 2, N))
+            .ki("i", i).ki("j", j).ks("op", op).begin();
+        if (op[0] == '+') lhs += cm2.get_unsafe(j);
+        else if (op[0] == '-') lhs -= cm2.get_unsafe(j);
+        else lhs *= cm2.get_unsafe(j);
+        r.k("r", mj_(m2)).end();
+      }
+  static_for<N>([&](auto idx) {
+    constexpr sz I = decltype(idx)::value;
+    Rec r("unit");
+    r.ks("k", "vector").ki("n", N).ki("axis", I).begin();
+    auto const res(fm::vector::unit<fm::vector::static_<int, N>>(I));
+    r.k("r", vj_(res)).end();
+  });
+  // spheres with integer components: members and comparison
+  {
+    fm::sphere::object<int, N> const s1(a, k);
+    fm::sphere::object<int, N> const s2(b, (v[0] + v[1]) % 2 == 0 ? k : k + 1);
+    fm::sphere::object<int, N> const s3(a, k);
+    {
+      Rec r("sphere_members");
+      r.k("a", aj).ki("ra", k).begin();
+      r.k("origin", vj_(s1.origin())).ki("radius", s1.radius()).end();
+    }
+    {
+      Rec r("sphere_eq");
+      r.k("a", aj).ki("ra", k).k("b", bj).ki("rb", s2.radius()).begin();
+      bool const res = s1 == s2;
+      r.kb("r", res).end();
+    }
+    {
+      Rec r("sphere_ne");
+      r.k("a", aj).ki("ra", k).k("b", bj).ki("rb", s2.radius()).begin();
+      bool const res = s1 != s2;
+      r.kb("r", res).end();
+    }
+    {
+      Rec r("sphere_eq");
+      r.k("a", aj).ki("ra", k).k("b", aj).ki("rb", k).begin();
+      bool const res = s1 == s3;
+      r.kb("r", res).end();
+    }
+  }
+}
+
+template <sz R, sz C>
+void ext_matrix_cases(char const *grp, ivec const &v)
+{
+  auto const a(mk_mat<R, C>(v, 0));
+  auto const b(mk_mat<R, C>(v, R * C));
+  std::string const aj = vals_mat(v, 0, R, C), bj = vals_mat(v, R * C, R, C);
+  {
+    Rec r("infinity_norm");
+    r.ks("g", grp).k("a", aj).begin();
+    int const res = fm::matrix::infinity_norm(a);
+    r.ki("r", res).end();
+  }
+  {
+    auto x(a);
+    Rec r("massign");
+    r.ks("g", grp).k("a", aj).k("b", bj).begin();
+    x = b;
+    r.k("r", mj_(x)).end();
+  }
+  {
+    // whole rows replaced through views, one after the other
+    auto x(a);
+    static_for<R>([&](auto ri) {
+      constexpr sz I = decltype(ri)::value;
+      std::string const before = mj_(x);
+      auto row(fm::matrix::at_r<I>(x));
+      Rec r("row_assign");
+      r.ks("g", grp).ks("st", "at_r view=constview(other matrix)").k("a", before).ki("i", I).k("v", vals_vec(v, R * C + I * C, C)).begin();
+      row = b.get_unsafe(I);
+      r.k("r", mj_(x)).end();
+    });
+  }
+}
+
+void part_extension(vj::Rng &rng, bool const thorough)
+{
+  // interval_distance over all well-formed integer intervals with end points in -3..3
+  for (int a1 = -3; a1 <= 3; ++a1)
+    for (int b1 = a1; b1 <= 3; ++b1)
+      for (int a2 = -3; a2 <= 3; ++a2)
+        for (int b2 = a2; b2 <= 3; ++b2)
+        {
+          Rec r("interval_distance");
+          r.k("a", "[" + std::to_string(a1) + "," + std::to_string(b1) + "]")
+              .k("b", "[" + std::to_string(a2) + "," + std::to_string(b2) + "]").begin();
+          int const res = fm::interval_distance(fcppt::tuple::make(a1, b1), fcppt::tuple::make(a2, b2));
+          r.ki("r", res).end();
+        }
+  // dimension 1 and 2: all pairs over {-2..2} with every divisor -3..3
+  for (int a = -2; a <= 2; ++a)
+    for (int b = -2; b <= 2; ++b)
+      for (int k = -3; k <= 3; ++k) ext_vector_cases<1>(ivec{a, b}, k);
+  for (unsigned c = 0; c < 256; ++c)
+  {
+    ivec v(mat2_of(c));
+    for (int k = -2; k <= 2; ++k)
+    {
+      if ((static_cast<int>(c) + k) % 3 != 0 && k != 0) continue;
+      ext_vector_cases<2>(v, k);
+    }
+    ivec w(v);
+    w.insert(w.end(), v.rbegin(), v.rend());
+    ext_matrix_cases<2, 2>("2x2", w);
+  }
+  unsigned const n = thorough ? 4000U : 400U;
+  for (unsigned i = 0; i < n; ++i)
+  {
+    int const k = static_cast<int>(rng.range(-4, 4));
+    auto const zeros = [&rng](ivec &v) {
+      // divisors: zero components with probability 1/4
+      for (std::size_t j = v.size() / 2; j < v.size(); ++j)
+        if (rng.below(8) == 0) v[j] = 0;
+    };
+    {
+      ivec v(random_vals(rng, 6, -9, 9));
+      zeros(v);
+      ext_vector_cases<3>(v, k);
+    }
+    {
+      ivec v(random_vals(rng, 8, -9, 9));
+      zeros(v);
+      ext_vector_cases<4>(v, k);
+    }
+    {
+      ivec const v(random_vals(rng, 18, -9, 9));
+      ext_matrix_cases<3, 3>("3x3", v);
+    }
+    {
+      ivec const v(random_vals(rng, 32, -9, 9));
+      ext_matrix_cases<4, 4>("4x4", v);
+    }
+    if (i % 4U == 0U)
+    {
+      ivec const v(random_vals(rng, 24, -9, 9));
+      ext_matrix_cases<2, 3>("2x3", v);
+      ext_matrix_cases<3, 1>("3x1", v);
+      ext_matrix_cases<1, 4>("1x4", v);
+    }
+  }
+}
+
 }
 
 int main(int argc, char **argv)
 {
   if (argc < 6 || std::strcmp(argv[1], "record") != 0)
   {
-    std::fprintf(stderr, "usage: c14_linalg record OUT seed quick|thorough pairs|matrices|vectors|all\n");
+    std::fprintf(stderr, "usage: c14_linalg record OUT seed quick|thorough pairs|matrices|vectors|extension|all\n");
     return 3;
   }
   vj::open(argv[2]);
@@ -1150,6 +1488,7 @@ int main(int argc, char **argv)
   if (part == "pairs" || part == "all") part_pairs();
   if (part == "matrices" || part == "all") part_matrices(rng, thorough);
   if (part == "vectors" || part == "all") part_vectors(rng, thorough);
+  if (part == "extension" || part == "all") part_extension(rng, thorough);
   vj::close();
   std::printf("records %ld\n", NREC);
   return 0;
